@@ -22,12 +22,22 @@ import (
 	"pgregory.net/rapid"
 )
 
-type c19Barrier struct{ ch chan struct{} }
+// c19Barrier is a ServerTransport double; the proxy loop calls GetAddress()
+// on the transport a message came from, which makes it a hook that runs in the
+// loop goroutine itself: fn may read the loop-owned tables without racing.
+type c19Barrier struct {
+	ch chan struct{}
+	fn func()
+}
 
 func (b *c19Barrier) Start(MessageHandler) error      { return nil }
 func (b *c19Barrier) Send(string, int, *Message) error { return nil }
 func (b *c19Barrier) GetProtocol() string             { return "UDP" }
 func (b *c19Barrier) GetAddress() string {
+	if b.fn != nil {
+		b.fn()
+		b.fn = nil
+	}
 	select {
 	case b.ch <- struct{}{}:
 	default:
@@ -118,9 +128,13 @@ func (r *c19Rig) quiesce(baseline int) error {
 	return r.barrier()
 }
 
-func (r *c19Rig) barrier() error {
+func (r *c19Rig) barrier() error { return r.inLoop(nil) }
+
+// inLoop sends a barrier message through the proxy's message channel and runs
+// fn inside the loop goroutine when the loop handles it.
+func (r *c19Rig) inLoop(fn func()) error {
 	// a fresh double per barrier: no stale signal can be mistaken for this one
-	b := &c19Barrier{ch: make(chan struct{}, 1)}
+	b := &c19Barrier{ch: make(chan struct{}, 1), fn: fn}
 	m := &Message{response: &StatusLine{version: "SIP/2.0", statusCode: 100, reason: "Barrier"}, headers: []*Header{}, body: []byte{}}
 	r.proxy.HandleRawMessage(NewRawMessage("127.0.0.9", 9, b, false, m))
 	select {
@@ -191,8 +205,12 @@ func (r *c19Rig) checkMembership() string {
 		return fmt.Sprintf("rotation contains %v, name resolution says %v", got, want)
 	}
 	var idx []string
-	for k := range r.proxy.backends {
-		idx = append(idx, k)
+	if err := r.inLoop(func() {
+		for k := range r.proxy.backends {
+			idx = append(idx, k)
+		}
+	}); err != nil {
+		return err.Error()
 	}
 	sort.Strings(idx)
 	if strings.Join(idx, ",") != strings.Join(want, ",") {
@@ -285,10 +303,10 @@ func (r *c19Rig) checkBehaviour() string {
 				return "harness: " + err.Error()
 			}
 			r.proxy.HandleRawMessage(NewRawMessage(ip, r.port, &c19Barrier{ch: make(chan struct{}, 1)}, false, resp))
-			if err := r.barrier(); err != nil {
+			pinned := false
+			if err := r.inLoop(func() { _, pinned = r.proxy.dialogBasedBackends.backends[dlg] }); err != nil {
 				return err.Error()
 			}
-			_, pinned := r.proxy.dialogBasedBackends.backends[dlg]
 			addr := fmt.Sprintf("%s:%d", ip, r.port)
 			if pinned != member[addr] {
 				return fmt.Sprintf("a dialog-creating response from %s was attributed to a backend: %v; %s is in the rotation: %v (rotation %v)", addr, pinned, addr, member[addr], want)
